@@ -4,6 +4,7 @@ import (
 	"bytes"
 	"context"
 	"os"
+	"strings"
 
 	rt "github.com/superfly/litefs/internal/verifrt"
 	"github.com/superfly/ltx"
@@ -415,4 +416,123 @@ func VerifC05FirstTx() {
 		rt.Reach("c05.first.before")
 	}
 	rt.Check(verifGone(db2.JournalPath()), "no hot journal is left for SQLite")
+}
+
+// verifDurableBefore checks, on the recorded file-system operations of one
+// commit, the order that makes "commit returned success" durable: the new
+// transaction file is synced under its temporary name, renamed into place, its
+// directory is synced - and only then does the step happen that lets the
+// caller see success (publish). publish < 0 means "end of the operation".
+func verifDurableBefore(log []rt.FSOp, ltxPath, ltxDir string, publish int, what string) {
+	if publish < 0 {
+		publish = len(log)
+	}
+	syncTmp, ren, syncDir := -1, -1, -1
+	for i, op := range log[:publish] {
+		switch {
+		case op.Op == "sync" && strings.HasPrefix(op.Path, ltxPath) && op.Path != ltxPath && ren < 0:
+			syncTmp = i
+		case op.Op == "rename" && ren < 0 && syncTmp >= 0:
+			ren = i
+		case op.Op == "sync" && op.Path == ltxDir && ren >= 0 && syncDir < 0:
+			syncDir = i
+		}
+	}
+	rt.Check(syncTmp >= 0, what+": the transaction file is synced before it is renamed into place")
+	rt.Check(ren > syncTmp, what+": the transaction file is renamed into place after being synced")
+	rt.Check(syncDir > ren, what+": the transaction log directory is synced after the rename and before success is reported")
+}
+
+// VerifC05Durability: a transaction whose commit returned success is not lost:
+// for each kind of commit, the transaction file is durable (file sync, rename,
+// directory sync) before the step that reports success.
+func VerifC05Durability() {
+	ctx := context.Background()
+	switch rt.Choose("commit.kind", 4) {
+	case 0: // rollback-journal commit: success = journal invalidated
+		w, _ := verifChainN(0, 1)
+		db := w.db
+		mode := rt.Choose("journal.mode", 3)
+		jf, err := db.CreateJournal()
+		must(err)
+		must(db.WriteJournalAt(ctx, jf, verifJournalHeader(0, 1, 1), 0, 1))
+		dbf, _ := db.OpenDatabase(ctx)
+		p := rt.Bytes("new", verifP)
+		verifHeaderPage(p, 1, false)
+		must(db.WriteDatabaseAt(ctx, dbf, p, 0, 1))
+		rt.FSLog, rt.FSLogOn = nil, true
+		switch mode {
+		case 0:
+			must(db.RemoveJournal(ctx))
+		case 1:
+			must(db.TruncateJournal(ctx))
+		case 2:
+			must(db.WriteJournalAt(ctx, jf, make([]byte, SQLITE_JOURNAL_HEADER_SIZE), 0, 1))
+		}
+		rt.FSLogOn = false
+		publish := -1
+		for i, op := range rt.FSLog {
+			if op.Path == db.JournalPath() && op.Op != "sync" && publish < 0 {
+				publish = i
+			}
+		}
+		rt.Check(publish >= 0, "harness: journal invalidated")
+		verifDurableBefore(rt.FSLog, db.LTXPath(42, 42), db.LTXDir(), publish, "journal commit")
+		rt.Reach("c05.durable.journal")
+	case 1: // WAL commit: success = WRITE lock released (end of Unlock)
+		w, m := verifC03Setup(1)
+		db := w.db
+		m.verifStartWAL(ctx, w, true)
+		m.verifC03Tx(ctx, w, 1, true)
+		rt.FSLog, rt.FSLogOn = nil, true
+		must(db.Unlock(ctx, 1, []LockType{LockTypeWrite}))
+		rt.FSLogOn = false
+		rt.Check(db.Pos().TXID == 42, "harness: WAL transaction captured")
+		verifDurableBefore(rt.FSLog, db.LTXPath(42, 42), db.LTXDir(), -1, "WAL commit")
+		rt.Reach("c05.durable.wal")
+	case 2: // replica apply: success = position advanced (end of the call); database pages synced too
+		w, _ := verifC01Replica(1, false)
+		db := w.db
+		pos0 := db.Pos()
+		p := rt.Bytes("new", verifP)
+		verifHeaderPage(p, 1, false)
+		img := [][]byte{p}
+		hdr := ltx.Header{PageSize: verifP, Commit: 1, MinTXID: pos0.TXID + 1, MaxTXID: pos0.TXID + 1, PreApplyChecksum: pos0.PostApplyChecksum, NodeID: 99}
+		rt.Assume(w.store.ID() != 99)
+		file := verifEncodeLTX(hdr, []uint32{1}, img, verifSpecChecksum(img))
+		rt.FSLog, rt.FSLogOn = nil, true
+		must(w.store.processLTXStreamFrame(ctx, &LTXStreamFrame{Name: "db"}, bytes.NewReader(file)))
+		rt.FSLogOn = false
+		firstPage := -1
+		for i, op := range rt.FSLog {
+			if op.Path == db.DatabasePath() && op.Op != "sync" && firstPage < 0 {
+				firstPage = i
+			}
+		}
+		rt.Check(firstPage >= 0, "harness: pages written")
+		verifDurableBefore(rt.FSLog, db.LTXPath(42, 42), db.LTXDir(), firstPage, "replica apply (before the database file is touched)")
+		dbSynced := false
+		for _, op := range rt.FSLog[firstPage:] {
+			if op.Op == "sync" && op.Path == db.DatabasePath() {
+				dbSynced = true
+			}
+		}
+		rt.Check(dbSynced, "replica apply: the database file is synced before the new position is reported")
+		rt.Reach("c05.durable.apply")
+	case 3: // drop: success = files removed
+		w, _ := verifChainN(0, 1)
+		db := w.db
+		rt.FSLog, rt.FSLogOn = nil, true
+		must(db.Drop(ctx))
+		rt.FSLogOn = false
+		publish := -1
+		for i, op := range rt.FSLog {
+			if op.Path == db.DatabasePath() && op.Op == "remove" && publish < 0 {
+				publish = i
+			}
+		}
+		rt.Check(publish >= 0, "harness: database removed")
+		verifDurableBefore(rt.FSLog, db.LTXPath(42, 42), db.LTXDir(), publish, "drop")
+		rt.Reach("c05.durable.drop")
+	}
 }
